@@ -374,7 +374,10 @@ def run(ctx):
 
     # ---- other dimensions (fresh interpreters)
     cbase = ctx.subdir("c")
-    sel = alphabet[:5] if quick else alphabet[:7]
+    # by name, so that extending the alphabet cannot silently drop a library from this part
+    want = ["csmall", "small", "other", "fwd", "hdrs"] + ([] if quick else ["cstr", "small-as-c-opts", "small-guarded"])
+    sel = [a for nm in want for a in alphabet if a[0] == nm]
+    assert len(sel) == len(want)
     jobs = []
     labels = []
     other_cwd = ctx.subdir("elsewhere")
@@ -392,7 +395,7 @@ def run(ctx):
         add("abs-cwd-elsewhere", {"PYTHONHASHSEED": "0"}, absolute=True, cwd_other=other_cwd)
         add("env-A", {"PYTHONHASHSEED": "0", "HOME": "/nonexistent/a", "USER": "alice", "HOSTNAME": "hosta", "LANG": "C", "TZ": "UTC", "SOURCE_DATE_EPOCH": "1"})
         add("env-B", {"PYTHONHASHSEED": "0", "HOME": "/tmp", "USER": "bob", "HOSTNAME": "hostb", "LANG": "en_US.UTF-8", "LC_ALL": "C.UTF-8", "TZ": "Asia/Tokyo", "SOURCE_DATE_EPOCH": "1700000000"})
-        stale = sorted(k2 for k2 in fresh[li] if "/" not in k2)
+        stale = sorted(k2 for k2 in fresh[[a[0] for a in alphabet].index(name)] if "/" not in k2)
         add("dirty-outdir", {"PYTHONHASHSEED": "0"}, dirty=stale)
     cres = isolate.pmap(cli_run, jobs, W)
     ref = {}
@@ -449,8 +452,8 @@ def run(ctx):
             ctx.violation("patched %s" % nm, "run failed: %s %s" % (t0 if s0 != "ok" else "", t1 if s1 != "ok" else ""), {"kind": "patched", "lib": nm})
         elif t0 != t1:
             ctx.violation("patched %s" % nm, "output depends on clock/host/pid/random:\n%s" % "\n".join(isolate.diff_trees(t0, t1, 2)), {"kind": "patched", "lib": nm})
-        elif t0 != {k: v for k, v in fresh[i // 2].items()}:
-            ctx.violation("patched-vs-fresh %s" % nm, "patched run differs from the plain run:\n%s" % "\n".join(isolate.diff_trees(fresh[i // 2], t0, 2)), {"kind": "patched", "lib": nm})
+        elif t0 != {k: v for k, v in fresh[[a[0] for a in alphabet].index(nm)].items()}:
+            ctx.violation("patched-vs-fresh %s" % nm, "patched run differs from the plain run:\n%s" % "\n".join(isolate.diff_trees(fresh[[a[0] for a in alphabet].index(nm)], t0, 2)), {"kind": "patched", "lib": nm})
     ctx.count(states=len(pres), transitions=len(pres), validated=len(pres))
     ctx.part("patched_environment", runs=len(pres))
     ctx.cov["rule"] = (
